@@ -24,6 +24,47 @@ FractureFailing(ev) ==
              \cup (IF ev.same_meta THEN {} ELSE {<<"tag_repetition_properties_not_copied">>})
              \cup (IF Len(ev.pieces) >= 1 THEN {} ELSE {<<"no_pieces">>})
 
+\* C01, vertex limit: write_gds(max_points = limit) followed by read_gds.  Below 5 (or with no more
+\* vertices than the limit) the polygon is stored as it is; otherwise plain polygons of at most
+\* `limit` vertices that cover exactly the same region, each with the tag and GDSII property
+GdsFracFailing(ev) ==
+    LET g == ev.g
+        S == g.s
+        P == FineOfUser(<<g.p>>, S)
+        R == FineOfGrid(ev.pieces)
+        qs == {q \in FineSamples(-1, 12, S) : FarU(P, q)}
+        badu == {q \in qs : InRegion(R, q) # InRegion(P, q)}
+        whole == g.limit < 5 \/ Len(g.p) <= g.limit IN
+    (IF ev.lat /\ ev.err = 0 THEN {} ELSE {<<"lattice_or_error">>})
+    \cup (IF whole => Len(ev.pieces) = 1 THEN {} ELSE {<<"polygon_within_limit_was_split">>})
+    \cup (IF whole \/ \A i \in DOMAIN ev.pieces : Len(ev.pieces[i]) <= g.limit THEN {}
+          ELSE {<<"piece_exceeds_limit">>})
+    \cup (IF badu = {} THEN {} ELSE {<<"region_differs", CHOOSE q \in badu : TRUE>>})
+    \cup (IF ev.same_meta THEN {} ELSE {<<"tag_or_property_lost">>})
+    \cup (IF Len(ev.pieces) >= 1 THEN {} ELSE {<<"no_polygon">>})
+
+\* C01, non-simple paths: stored as polygons that must cover the region of the path's outline.
+\* Units of 1/16 grid: the outline before saving (ev.pre) is logged in them, re-loaded vertices are
+\* 16 * grid; samples are the centres of the grid squares; a sample closer than one grid unit to a
+\* slanted edge of the outline is skipped (rounding of that edge's end points may move it)
+GdsPathFailing(ev) ==
+    LET g == ev.g
+        U == 16
+        PRE == ev.pre
+        POST == [i \in DOMAIN ev.post |-> [k \in DOMAIN ev.post[i] |-> <<U * ev.post[i][k][1], U * ev.post[i][k][2]>>]]
+        R == g.s * 14
+        qs == {q \in {<<U * x + 8, U * y + 8>> : x \in (-2 * g.s)..R, y \in (-2 * g.s)..R} :
+                 \A e \in GroupEdges(PRE) : IsAxisParallel(e[1], e[2]) \/ SegFartherThan(e[1], e[2], q, U)}
+        tags == {ev.pretags[i] : i \in DOMAIN ev.pretags}
+        Of(G, ts, t) == [i \in {j \in DOMAIN G : ts[j] = t} |-> G[i]]
+        In(G, ts, t, q) == \E i \in DOMAIN G : ts[i] = t /\ Winding(G[i], q) # 0
+        bad == {<<t, q>> \in tags \X qs : In(PRE, ev.pretags, t, q) # In(POST, ev.ptags, t, q)} IN
+    (IF ev.lat /\ ev.err = 0 THEN {} ELSE {<<"lattice_or_error">>})
+    \cup (IF ev.same_meta THEN {} ELSE {<<"not_plain_polygons_with_type_and_property">>})
+    \cup (IF {ev.ptags[i] : i \in DOMAIN ev.ptags} = tags THEN {} ELSE {<<"layers_differ">>})
+    \cup (IF Cardinality(qs) >= 50 THEN {} ELSE {<<"too_few_decisive_samples">>})
+    \cup (IF bad = {} THEN {} ELSE {<<"region_differs", CHOOSE b \in bad : TRUE>>})
+
 \* slice: bin i (1-based) holds the part of P between cut i-1 and cut i (cuts in half user units)
 SliceFailing(ev) ==
     LET g == ev.g
@@ -42,6 +83,8 @@ SliceFailing(ev) ==
 
 Check(ev) == CASE ev.e = "fracture" -> FractureFailing(ev)
                [] ev.e = "slice" -> SliceFailing(ev)
+               [] ev.e = "gdsfrac" -> GdsFracFailing(ev)
+               [] ev.e = "gdspath" -> GdsPathFailing(ev)
                [] OTHER -> {<<ev.e>>}
 TInit == l = 1
 TNext == /\ l <= Len(Log) /\ l' = l + 1
